@@ -1,4 +1,5 @@
 use super::*;
+use crate::ast_util::purge_trivia;
 use crate::ast_util::range;
 use std::convert::Infallible;
 
@@ -105,10 +106,10 @@ impl Visitor for UDim2NewVisitor {
                 }
 
                 let mut iter = arguments.iter();
-                let x_scale = iter.next().unwrap().to_string();
-                let x_offset = iter.next().unwrap().to_string();
-                let y_scale = iter.next().unwrap().to_string();
-                let y_offset = iter.next().unwrap().to_string();
+                let x_scale = purge_trivia(iter.next().unwrap()).to_string();
+                let x_offset = purge_trivia(iter.next().unwrap()).to_string();
+                let y_scale = purge_trivia(iter.next().unwrap()).to_string();
+                let y_offset = purge_trivia(iter.next().unwrap()).to_string();
 
                 let only_offset = x_scale.parse::<f32>() == Ok(0.0) && y_scale.parse::<f32>() == Ok(0.0);
                 let only_scale = x_offset.parse::<f32>() == Ok(0.0) && y_offset.parse::<f32>() == Ok(0.0);
